@@ -3,10 +3,13 @@
 package cli
 
 import (
+	"bytes"
 	"context"
 	"encoding/binary"
 	"errors"
 	"net"
+	"os"
+	"sync"
 	"time"
 
 	"github.com/insomniacslk/dhcp/dhcpv4"
@@ -18,6 +21,8 @@ import (
 const (
 	nonceOpt4 = 224   // site-specific DHCPv4 option carrying the harness nonce
 	nonceOpt6 = 65001 // unassigned DHCPv6 option code carrying the harness nonce
+	tailOpt4  = 226   // trailer option: nonce-determined payload behind the nonce option, so that a datagram
+	tailOpt6  = 65003 // that reached a caller cut short or overwritten is recognised (Resp.Damaged)
 )
 
 // Req is a request message of either family.
@@ -42,6 +47,8 @@ type Resp struct {
 	Xid   uint32
 	Op    int    // v4 opcode
 	HW    string // v4 chaddr
+	// Damaged: the message carries a nonce but not the intact trailer of that datagram (it is not the datagram that arrived)
+	Damaged bool
 }
 
 type MatchFn func(Resp) bool
@@ -54,6 +61,9 @@ type Client interface {
 type Family interface {
 	Name() string
 	New(conn net.PacketConn, T time.Duration, tries int) (Client, error)
+	// NewCfg is New with one of the client's logging configurations (cfg modulo NCfg): plain, dropped-packet
+	// logging, summary logger, debug logger.  Log output goes to /dev/null.
+	NewCfg(conn net.PacketConn, T time.Duration, tries int, cfg int) (Client, error)
 	Request(xid uint32, extra int) Req
 	// Datagram builds a datagram of the given class answering xid.
 	Datagram(class string, xid uint32, nonce int, msgType int) []byte
@@ -63,6 +73,37 @@ type Family interface {
 	Classes() []string
 	AcceptType() int // a message type that "typed" matchers accept
 	OtherType() int  // a message type they reject
+}
+
+// NCfg is the number of client logging configurations NewCfg knows.
+const NCfg = 4
+
+var (
+	stderrMu sync.Mutex
+	devNull  *os.File
+)
+
+// quietStderr points os.Stderr at /dev/null while a client is constructed: the library's logger options capture
+// os.Stderr at that moment, so their output is discarded while the process' real stderr (panics, race reports) is untouched.
+func quietStderr() (restore func()) {
+	stderrMu.Lock()
+	if devNull == nil {
+		devNull, _ = os.OpenFile(os.DevNull, os.O_WRONLY, 0)
+	}
+	old := os.Stderr
+	if devNull != nil {
+		os.Stderr = devNull
+	}
+	return func() { os.Stderr = old; stderrMu.Unlock() }
+}
+
+// Tail is the trailer payload of the datagram with the given nonce.
+func Tail(nonce int) []byte {
+	b := make([]byte, 3+nonce%29)
+	for i := range b {
+		b[i] = byte(nonce*31 + i*7 + 1)
+	}
+	return b
 }
 
 var HW = net.HardwareAddr{0x02, 0x00, 0x5e, 0x10, 0x00, 0x01}
@@ -81,8 +122,21 @@ func (V4) SetHook(h func(string)) { setHook4(h) }
 
 type c4 struct{ c *nclient4.Client }
 
-func (V4) New(conn net.PacketConn, T time.Duration, tries int) (Client, error) {
-	c, err := nclient4.NewWithConn(conn, HW, nclient4.WithTimeout(T), nclient4.WithRetry(tries))
+func (f V4) New(conn net.PacketConn, T time.Duration, tries int) (Client, error) {
+	return f.NewCfg(conn, T, tries, 0)
+}
+
+func (V4) NewCfg(conn net.PacketConn, T time.Duration, tries int, cfg int) (Client, error) {
+	opts := []nclient4.ClientOpt{nclient4.WithTimeout(T), nclient4.WithRetry(tries)}
+	switch cfg % NCfg {
+	case 1, 2:
+		opts = append(opts, nclient4.WithSummaryLogger())
+	case 3:
+		opts = append(opts, nclient4.WithDebugLogger())
+	}
+	restore := quietStderr()
+	c, err := nclient4.NewWithConn(conn, HW, opts...)
+	restore()
 	if err != nil {
 		return nil, err
 	}
@@ -109,6 +163,7 @@ func (V4) Datagram(class string, xid uint32, nonce int, msgType int) []byte {
 	var nb [4]byte
 	binary.BigEndian.PutUint32(nb[:], uint32(nonce))
 	p.UpdateOption(dhcpv4.OptGeneric(dhcpv4.GenericOptionCode(nonceOpt4), nb[:]))
+	p.UpdateOption(dhcpv4.OptGeneric(dhcpv4.GenericOptionCode(tailOpt4), Tail(nonce)))
 	switch class {
 	case "wrong-xid":
 		p.TransactionID = xid4(xid ^ 0x5a5a0000)
@@ -134,6 +189,7 @@ func resp4(p *dhcpv4.DHCPv4) Resp {
 	r := Resp{Type: int(p.MessageType()), Xid: binary.BigEndian.Uint32(p.TransactionID[:]), Op: int(p.OpCode), HW: string(p.ClientHWAddr), Nonce: -1}
 	if v := p.Options.Get(dhcpv4.GenericOptionCode(nonceOpt4)); len(v) == 4 {
 		r.Nonce = int(binary.BigEndian.Uint32(v))
+		r.Damaged = !bytes.Equal(p.Options.Get(dhcpv4.GenericOptionCode(tailOpt4)), Tail(r.Nonce))
 	}
 	return r
 }
@@ -168,8 +224,23 @@ func (V6) SetHook(h func(string)) { setHook6(h) }
 
 type c6 struct{ c *nclient6.Client }
 
-func (V6) New(conn net.PacketConn, T time.Duration, tries int) (Client, error) {
-	c, err := nclient6.NewWithConn(conn, HW, nclient6.WithTimeout(T), nclient6.WithRetry(tries))
+func (f V6) New(conn net.PacketConn, T time.Duration, tries int) (Client, error) {
+	return f.NewCfg(conn, T, tries, 0)
+}
+
+func (V6) NewCfg(conn net.PacketConn, T time.Duration, tries int, cfg int) (Client, error) {
+	opts := []nclient6.ClientOpt{nclient6.WithTimeout(T), nclient6.WithRetry(tries)}
+	switch cfg % NCfg {
+	case 1:
+		opts = append(opts, nclient6.WithLogDroppedPackets())
+	case 2:
+		opts = append(opts, nclient6.WithLogDroppedPackets(), nclient6.WithSummaryLogger())
+	case 3:
+		opts = append(opts, nclient6.WithLogDroppedPackets(), nclient6.WithDebugLogger())
+	}
+	restore := quietStderr()
+	c, err := nclient6.NewWithConn(conn, HW, opts...)
+	restore()
 	if err != nil {
 		return nil, err
 	}
@@ -194,6 +265,7 @@ func (V6) Datagram(class string, xid uint32, nonce int, msgType int) []byte {
 	var nb [4]byte
 	binary.BigEndian.PutUint32(nb[:], uint32(nonce))
 	m.AddOption(&dhcpv6.OptionGeneric{OptionCode: nonceOpt6, OptionData: nb[:]})
+	m.AddOption(&dhcpv6.OptionGeneric{OptionCode: tailOpt6, OptionData: Tail(nonce)})
 	switch class {
 	case "wrong-xid":
 		m.TransactionID = xid6(xid ^ 0x5a0000)
@@ -218,6 +290,8 @@ func resp6(m *dhcpv6.Message) Resp {
 	if o := m.GetOneOption(nonceOpt6); o != nil {
 		if v := o.ToBytes(); len(v) == 4 {
 			r.Nonce = int(binary.BigEndian.Uint32(v))
+			t := m.GetOneOption(tailOpt6)
+			r.Damaged = t == nil || !bytes.Equal(t.ToBytes(), Tail(r.Nonce))
 		}
 	}
 	return r
@@ -234,6 +308,7 @@ func (c *c6) SendAndRead(ctx context.Context, dest *net.UDPAddr, req Req, m Matc
 func (c *c6) Close() error { return c.c.Close() }
 
 func (V6) IsNoResponse(err error) bool { return errors.Is(err, nclient6.ErrNoResponse) }
+
 // IsInUse: nclient6 refuses a pending transaction id with an untyped error; so as not to depend on its text, every
 // error that is neither the no-response error, a context error nor a closed-connection error counts as a refusal
 // (the checkers additionally require that a refused call transmitted nothing).
